@@ -1,7 +1,10 @@
 //! ilv: drives the real inputlayer code for the TLA+-based checks in /verif.
 #![allow(dead_code)]
+mod crash;
 mod engine;
 mod hscen;
+mod indexes;
+mod values;
 mod matrix;
 mod pool;
 mod prog;
@@ -42,6 +45,10 @@ fn main() {
         "drive-store" => store::main(&args),
         "drive-handler" => hscen::main(&args),
         "dump-matrix" => matrix::main(&args),
+        "dump-values" => values::main(&args),
+        "drive-indexes" => indexes::main(&args),
+        "crash-workload" => crash::workload(&args),
+        "recover" => crash::recover(&args),
         other => {
             eprintln!("unknown subcommand {other}");
             std::process::exit(2);
